@@ -66,8 +66,8 @@ type vtC29Event struct {
 	active   int  // endpoint calls in progress when the event happened (before it)
 	ancestor *core.Entry
 	hasAnc   bool
-	paused   bool // SaveSession: the flag written
-	empty    bool // SaveArchive: no content written
+	paused   bool           // SaveSession: the flag written
+	empty    bool           // SaveArchive: no content written
 	roots    [2]*core.Entry // SaveArchive(empty): the roots at that moment
 }
 
@@ -226,20 +226,20 @@ func vtC29TimestampNow() *timestamppb.Timestamp        { return &timestamppb.Tim
 var vtC29Stubs = map[string]any{
 	"context.Background": vtBackground,
 	"context.WithCancel": vtWithCancel,
-	"github.com/mutagen-io/mutagen/pkg/encoding.LoadAndUnmarshalProtobuf":             vtC29Load,
-	"github.com/mutagen-io/mutagen/pkg/encoding.MarshalAndSaveProtobuf":               vtC29Save,
+	"github.com/mutagen-io/mutagen/pkg/encoding.LoadAndUnmarshalProtobuf": vtC29Load,
+	"github.com/mutagen-io/mutagen/pkg/encoding.MarshalAndSaveProtobuf":   vtC29Save,
 	"os.Remove": vtC29Remove,
-	"github.com/mutagen-io/mutagen/pkg/synchronization.pathForSession":                vtC29PathForSession,
-	"github.com/mutagen-io/mutagen/pkg/synchronization.pathForArchive":                vtC29PathForArchive,
-	"github.com/mutagen-io/mutagen/pkg/filesystem.DirectoryContentsByPath":            vtC29DirectoryContents,
-	"github.com/mutagen-io/mutagen/pkg/identifier.New":                                vtC29NewIdentifier,
-	"github.com/mutagen-io/mutagen/pkg/identifier.IsValid":                            vtC29IdentifierValid,
-	"github.com/mutagen-io/mutagen/pkg/identifier.Truncated":                          vtC29IdentifierTruncated,
-	"github.com/mutagen-io/mutagen/pkg/state.NewTracker":                              vtC29NewTracker,
-	"(*github.com/mutagen-io/mutagen/pkg/state.Tracker).NotifyOfChange":               vtC29TrackerNop,
-	"(*github.com/mutagen-io/mutagen/pkg/state.Tracker).Terminate":                    vtC29TrackerNop,
-	"google.golang.org/protobuf/types/known/timestamppb.Now":                          vtC29TimestampNow,
-	"github.com/mutagen-io/mutagen/pkg/extension.EnvironmentIsExtension":              vtC29NotExtension,
+	"github.com/mutagen-io/mutagen/pkg/synchronization.pathForSession":     vtC29PathForSession,
+	"github.com/mutagen-io/mutagen/pkg/synchronization.pathForArchive":     vtC29PathForArchive,
+	"github.com/mutagen-io/mutagen/pkg/filesystem.DirectoryContentsByPath": vtC29DirectoryContents,
+	"github.com/mutagen-io/mutagen/pkg/identifier.New":                     vtC29NewIdentifier,
+	"github.com/mutagen-io/mutagen/pkg/identifier.IsValid":                 vtC29IdentifierValid,
+	"github.com/mutagen-io/mutagen/pkg/identifier.Truncated":               vtC29IdentifierTruncated,
+	"github.com/mutagen-io/mutagen/pkg/state.NewTracker":                   vtC29NewTracker,
+	"(*github.com/mutagen-io/mutagen/pkg/state.Tracker).NotifyOfChange":    vtC29TrackerNop,
+	"(*github.com/mutagen-io/mutagen/pkg/state.Tracker).Terminate":         vtC29TrackerNop,
+	"google.golang.org/protobuf/types/known/timestamppb.Now":               vtC29TimestampNow,
+	"github.com/mutagen-io/mutagen/pkg/extension.EnvironmentIsExtension":   vtC29NotExtension,
 }
 
 var verifStubs_VerifC29History = vtC29Stubs
@@ -377,6 +377,9 @@ type vtC29Oracle struct {
 	quietSince int
 	// paths (files) that a reset promised not to lose, until the next deliberate deletion
 	keep []string
+	// journal index of the event at which the last successful reset cleared the history
+	wasCleared bool
+	clearedAt  int
 }
 
 func vtC29File(d byte) *core.Entry {
@@ -427,9 +430,42 @@ func (o *vtC29Oracle) openGate() {
 	}
 }
 
+// historyCleared: after the last successful reset cleared the persisted
+// history, nothing of the synchronization loop that was halted for it goes on,
+// and the first scan of each root that follows is given no history.  (Checked
+// again whenever the journal may have grown: the first scan usually comes after
+// the reset has returned.)
+func (o *vtC29Oracle) historyCleared() {
+	if !o.wasCleared {
+		return
+	}
+	w := o.w
+	reconnected := false
+	seen := [2]bool{}
+	for i := o.clearedAt + 1; i < len(w.ev); i++ {
+		e := w.ev[i]
+		if e.kind == vtC29Connect {
+			reconnected = true
+		}
+		if e.end {
+			continue
+		}
+		switch e.kind {
+		case vtC29Scan, vtC29Stage, vtC29Supply, vtC29Transition:
+			vAssert(reconnected, "an endpoint operation of the old synchronization loop began after the history had been cleared")
+		}
+		if e.kind == vtC29Scan && !seen[e.side] {
+			seen[e.side] = true
+			vCover("first scan after a reset")
+			vAssert(!e.hasAnc, "the first scan after a reset was given the old history")
+		}
+	}
+}
+
 // quiet: while the session is paused, terminated or its manager is shut down,
 // no endpoint call begins.
 func (o *vtC29Oracle) quiet(when string) {
+	o.historyCleared()
 	if o.status != vtC29Paused && o.status != vtC29Terminated && o.status != vtC29Down {
 		return
 	}
@@ -447,13 +483,13 @@ func vtC29Broken(status int, kind int) {
 	case vtC29Paused:
 		switch kind {
 		case vtC29Scan:
-			vAssert(false, "after pausing returned and before any resume a scan began")
+			vAssert(false, "while the session is paused (pausing has returned, or it was created paused; no resume yet) a scan began")
 		case vtC29Stage, vtC29Supply:
-			vAssert(false, "after pausing returned and before any resume staging began")
+			vAssert(false, "while the session is paused (pausing has returned, or it was created paused; no resume yet) staging began")
 		case vtC29Transition:
-			vAssert(false, "after pausing returned and before any resume a transition began")
+			vAssert(false, "while the session is paused (pausing has returned, or it was created paused; no resume yet) a transition began")
 		case vtC29Poll:
-			vAssert(false, "after pausing returned and before any resume watching (an endpoint Poll call) began")
+			vAssert(false, "while the session is paused (pausing has returned, or it was created paused; no resume yet) watching (an endpoint Poll call) began")
 		}
 	case vtC29Terminated:
 		switch kind {
@@ -666,26 +702,9 @@ func (o *vtC29Oracle) command(cmd int) {
 					}
 				})
 			}
-			reconnected := false
-			seen := [2]bool{}
-			for i := cleared + 1; i < len(w.ev); i++ {
-				e := w.ev[i]
-				if e.kind == vtC29Connect {
-					reconnected = true
-				}
-				if e.end {
-					continue
-				}
-				switch e.kind {
-				case vtC29Scan, vtC29Stage, vtC29Supply, vtC29Transition:
-					vAssert(reconnected, "an endpoint operation of the old synchronization loop began after the history had been cleared")
-				}
-				if e.kind == vtC29Scan && !seen[e.side] {
-					seen[e.side] = true
-					vCover("first scan after a reset")
-					vAssert(!e.hasAnc, "the first scan after a reset was given the old history")
-				}
-			}
+			o.clearedAt = cleared
+			o.wasCleared = true
+			o.historyCleared()
 			if o.status == vtC29Paused {
 				vAssert(w.archiveFile != nil && w.archiveFile.content == nil, "after a reset of a paused session the persisted history is empty")
 			}
